@@ -249,7 +249,7 @@ class Checker:
             out['nobl'] += 1
             if b > a + 1:
                 c = ts[b].v - ts[a].v > h.step.v
-                if (not h.default_step) and ex.feasible(c):
+                if (not h.default_step) and (not h.havoc_add) and ex.feasible(c):
                     add('step_bound', 'step from row %d to row %d exceeds max(time_step, local gap)' % (a, b), c)
         if len(props) != len(idx):
             add('prop_count', '%d propagation steps for %d result rows' % (len(props), len(idx)))
@@ -305,6 +305,7 @@ def witness_to_spec(kind, cfg, w, **extra):
             'with_increments': cfg.get('with_increments', False),
             'default_step': cfg.get('default_step', False),
             'default_models': cfg.get('default_models', False),
+            'havoc_add': cfg.get('havoc_add', False),
             'model_states': list(cfg.get('model_states', (0, 0))),
             'time_limit': 8, 'timeout_is_violation': True}
     spec.update(extra)
